@@ -68,7 +68,7 @@ def confirm(mid):
     log["without_change"] = {"rc": rc2, "tail": out2[-500:]}
     sh(f"git apply out/patch.diff", cwd=wt)
     sh("rm -rf _b", cwd=wt)
-    log["confirmed"] = bool(log["tests_ok"] and (rc != 0 or "FAIL" in out) and rc2 == 0 and "FAIL" not in out2.replace("Fail:", ""))
+    log["confirmed"] = bool(log["tests_ok"] and rc != 0 and rc2 == 0)
     json.dump(log, open(f"{wt}/out/confirm.json", "w"), indent=1)
     print(mid, "confirmed" if log["confirmed"] else "NOT CONFIRMED", json.dumps(log)[:1500])
     return log
